@@ -195,13 +195,13 @@ def run(ctx):
                         if D == 3 and (cache == 3 or tk == "affine"):
                             continue
                     else:
-                        depth = 4
-                        if D == 1 and cache == 1 and tk == "none":
+                        # depth 4 wherever the operation menu is small enough (level 2 doubles it through the SD values);
+                        # depth 5 for the smallest menu; everything else depth 3 as in the quick tier but without its omissions
+                        depth = 4 if (D <= 2 and level < 2) or (D == 1 and level == 2) else 3
+                        if D == 1 and level < 2 and cache == 1 and tk == "none":
                             depth = 5
-                        if D == 3 and (cache != 1 or tk == "log"):
-                            depth = 3
-                        if level == 2 and D == 2 and cache == 3 and tk != "none":
-                            depth = 3
+                        if D == 2 and level == 2 and cache == 1 and tk == "none":
+                            depth = 4
                     cfgs.append((D, level, cache, depth, tk))
     # reported SDs whose squares under/overflow (merging must still give the precision-weighted mean)
     cfgs += [(D, 2, cache, 3, tk, sdk) for D in (1, 2) for cache in (1, 3) for tk in ("none", "affine") for sdk in ("tiny", "huge")]
